@@ -449,3 +449,11 @@ SPECS += [
          ret="Unit", return_unit=["self._output_info"], ignore_fields=["_output_info"],
          alias={"self._output_info.time": "src_time", "info.time": "req_time"}, props=["C13", "C04", "C02"]),
 ]
+
+# ---- sdk/output.py : when an output hands out its metadata (C06: never while an exchange is outstanding) -------------
+SPECS += [
+    dict(lean="Output_info", path="sdk/output.py", qual="Output.info", group="Output",
+         fields={"has_info": "Bool", "has_targets": "Bool", "_out_infos_exchanged": "Int", "_connected_inputs": "Dict[Obj,Opt[Time]]"},
+         params={}, ret="Unit", return_unit=["self._output_info"], property=True,
+         conds={"self._output_info is None": "(self_has_info = false)"}, props=["C06", "C20"]),
+]
